@@ -47,6 +47,11 @@ type MemStore struct {
 	StoreOnce bool
 	DupForm   int
 
+	// EmptySetNoError makes LoadByNodeId report "no records under this node
+	// id" as an empty set with a nil error instead of ErrNotFound (both are
+	// plausible NodeIdLoader implementations).
+	EmptySetNoError bool
+
 	// Hook is called before every storage call (scheduling point under E2).
 	Hook func(call, kind, id string)
 }
@@ -67,7 +72,7 @@ func (m *MemStore) Clone() *MemStore {
 		c.data[k] = v
 	}
 	c.NodeOrder = append([]string(nil), m.NodeOrder...)
-	c.StoreOnce, c.DupForm = m.StoreOnce, m.DupForm
+	c.StoreOnce, c.DupForm, c.EmptySetNoError = m.StoreOnce, m.DupForm, m.EmptySetNoError
 	return c
 }
 
@@ -262,7 +267,7 @@ func (m *MemStore) LoadByNodeId(ctx context.Context, msg nodeenrollment.MessageW
 			nodes = append(nodes, n)
 		}
 	}
-	if len(nodes) == 0 {
+	if len(nodes) == 0 && !m.EmptySetNoError {
 		return nodeenrollment.ErrNotFound
 	}
 	set.Nodes = nodes
